@@ -97,5 +97,9 @@ Definition s_accepts (a : args) : list (list Z) :=
 Definition d_gapclass (a : args) : list (list Z) :=
   match decode_arr a with Some p => [dedup (gap_kinds p)] | None => [[(-3)%Z]] end.
 
+(* postcondition of the accessor/kernel panel: the harness reports [1] when no safe call panicked *)
+Definition p_panel (a : args) : list (list Z) := [[zb (Z.eqb (hd 0%Z (hd [] a)) 1)]].
+
 Definition ops_C09 : list (string * opfun) :=
-  [ ("c09.validate", d_validate); ("c09.accepts.spec", s_accepts); ("c09.gapclass", d_gapclass) ].
+  [ ("c09.validate", d_validate); ("c09.accepts.spec", s_accepts); ("c09.gapclass", d_gapclass);
+    ("c09.panel.post1", p_panel) ].
